@@ -128,7 +128,15 @@ class E1Prop(Prop):
                 res.lines.append(w.dump())
                 res.n_ops = i + 1
                 obs.after(op, ans)
-                msg = check(obs) if check else None
+                try:
+                    msg = check(obs) if check else None
+                except Exception as e:   # noqa: BLE001
+                    if type(e).__module__.startswith('pymysql') or type(e).__name__ in ('HTTPInternalServerError', 'HTTPBadRequest', 'HTTPNotFound'):
+                        # the oracle reads through the service's own SQL functions / handlers: an error raised THERE is a finding
+                        msg = ('service-read-raises-' + (str(e.args[0]) if e.args and isinstance(e.args[0], int) else type(e).__name__),
+                               f'a read of the service made by the oracle after `{op}` raised {type(e).__name__}{e.args}')
+                    else:
+                        raise
                 diverged = len(w.sql_errors) > n_sql and w.sql_errors[-1][1] in oracles.DIVERGENT_SQL_ERRORS
                 if msg is not None:
                     res.failure = (i, msg[0], msg[1])
@@ -147,7 +155,13 @@ class E1Prop(Prop):
                     res.tags.append(f'cut:sql-{w.sql_errors[-1][1]}')
                     break
             if check and res.failure is None:
-                msg = oracles.final_check(self.oracle_name, obs)
+                try:
+                    msg = oracles.final_check(self.oracle_name, obs)
+                except Exception as e:   # noqa: BLE001
+                    if not type(e).__module__.startswith('pymysql'):
+                        raise
+                    msg = ('service-read-raises-' + str(e.args[0] if e.args else type(e).__name__),
+                           f'a read of the service made by the final oracle raised {type(e).__name__}{e.args}')
                 if msg is not None:
                     res.failure = (res.n_ops - 1, msg[0], msg[1])
             res.tags += obs.tags
